@@ -52,11 +52,20 @@ func genCopyCase(t *rapid.T) CopyCase {
 	c.DstKind = rapid.SampledFrom(storeKinds).Draw(t, "dst")
 	c.First = rapid.SampledFrom([]uint64{1, 1, 2, 1000, 1 << 40}).Draw(t, "first")
 	n := rapid.SampledFrom([]int{0, 0, 1, 2, 3, 5, 8, 13, 30, 60}).Draw(t, "n")
+	// bulk: a source of more than 1 MiB (entries of 20-70 KiB), so that one destination batch can be
+	// far larger than any internal buffer of the destination store
+	bulk := rapid.IntRange(0, 7).Draw(t, "bulk") == 0
+	if bulk {
+		n = rapid.IntRange(20, 45).Draw(t, "nbulk")
+	}
 	total := 0
 	sizes := []int{}
 	for i := 0; i < n; i++ {
 		e := kit.EntrySpec{Term: uint64(rapid.IntRange(0, 9).Draw(t, "term")), Type: uint8(rapid.IntRange(0, 5).Draw(t, "ty")), Seed: uint8(rapid.IntRange(0, 255).Draw(t, "seed"))}
 		e.DataLen = rapid.SampledFrom([]int{0, 1, 10, 31, 32, 33, 100, 500, 5000}).Draw(t, "dl")
+		if bulk {
+			e.DataLen = rapid.SampledFrom([]int{20000, 32768, 40000, 65500, 65536, 70000}).Draw(t, "dlbulk")
+		}
 		if rapid.IntRange(0, 3).Draw(t, "ext") == 0 {
 			e.ExtLen = rapid.IntRange(1, 30).Draw(t, "el")
 		}
@@ -76,12 +85,18 @@ func genCopyCase(t *rapid.T) CopyCase {
 		}
 	}
 	c.BatchBytes = rapid.SampledFrom(bb).Draw(t, "bb")
+	if bulk && rapid.Bool().Draw(t, "bulkOneBatch") {
+		c.BatchBytes = 1 << 30
+	}
 	c.Progress = rapid.SampledFrom([]string{"nil", "buffered", "unbuffered"}).Draw(t, "prog")
 	if n > 0 && rapid.IntRange(0, 3).Draw(t, "docancel") == 0 {
 		c.CancelAt = rapid.IntRange(1, n).Draw(t, "cancelAt")
 		c.Deadline = rapid.Bool().Draw(t, "deadline")
 	}
 	c.SegSize = rapid.SampledFrom([]int{128, 4096, 1 << 20}).Draw(t, "seg")
+	if bulk {
+		c.SegSize = rapid.SampledFrom([]int{1 << 20, 4 << 20, 64 << 20}).Draw(t, "segbulk")
+	}
 	if c.CancelAt == 0 {
 		switch rapid.IntRange(0, 9).Draw(t, "storeErr") {
 		case 0:
@@ -464,6 +479,17 @@ func runCopy(c CopyCase) (res common.Result) {
 	if c.First != 1 {
 		res.Classes = append(res.Classes, "first-not-1")
 	}
+	tot := 0
+	for _, es := range c.Entries {
+		tot += es.DataLen
+	}
+	if tot > 1<<20 {
+		res.Classes = append(res.Classes, "source-larger-than-1MiB")
+		res.NonTrivial = true
+		if c.BatchBytes >= tot {
+			res.Classes = append(res.Classes, "one-batch-larger-than-1MiB")
+		}
+	}
 	return
 }
 
@@ -484,6 +510,10 @@ type StableCase struct {
 	Progress string            `json:"prog"`
 	// DstStale: the destination already holds other (non-zero) values for every listed key
 	DstStale bool `json:"dstStale,omitempty"`
+	// Collide: the same name is listed as an extra int key and as an extra regular key (and a
+	// standard int key's name as an extra regular key). Only between stores that keep Set and
+	// SetUint64 values apart (InmemStore), where both views of the name are independent values.
+	Collide bool `json:"collide,omitempty"`
 }
 
 func genStableCase(t *rapid.T) StableCase {
@@ -515,6 +545,18 @@ func genStableCase(t *rapid.T) StableCase {
 	c.Cancel = rapid.IntRange(0, 5).Draw(t, "cancel") == 0
 	c.Progress = rapid.SampledFrom([]string{"nil", "unbuffered"}).Draw(t, "prog")
 	c.DstStale = rapid.IntRange(0, 3).Draw(t, "dstStale") == 0
+	if rapid.IntRange(0, 5).Draw(t, "collide") == 0 {
+		c.Collide = true
+		c.Src, c.DstKind = "inmem", "inmem"
+		c.ExtraInt = append(c.ExtraInt, "both")
+		c.ExtraKey = append(c.ExtraKey, "both")
+		c.Ints["both"] = rapid.Uint64Range(1, 1<<40).Draw(t, "vbothInt")
+		c.Bytes["both"] = rapid.SliceOfN(rapid.Byte(), 1, 30).Draw(t, "vbothKey")
+		if rapid.Bool().Draw(t, "termAsKey") {
+			c.ExtraKey = append(c.ExtraKey, "CurrentTerm")
+			c.Bytes["CurrentTerm"] = rapid.SliceOfN(rapid.Byte(), 1, 30).Draw(t, "vtermKey")
+		}
+	}
 	return c
 }
 
@@ -676,6 +718,9 @@ func runStable(c StableCase) (res common.Result) {
 	res.Classes = append(res.Classes, "stable-copied", "pair:"+c.Src+">"+c.DstKind)
 	if c.DstStale {
 		res.Classes = append(res.Classes, "destination-held-stale-values")
+	}
+	if c.Collide {
+		res.Classes = append(res.Classes, "name-listed-as-int-and-regular-key")
 	}
 	if len(c.ExtraInt)+len(c.ExtraKey) > 0 {
 		res.Classes = append(res.Classes, "extra-keys")
